@@ -234,6 +234,59 @@ def cases(tier: str) -> List[Tuple[int, Tuple[str, ...]]]:
     return out
 
 
+def reload_stage(ctx: Ctx) -> Result:
+    """One process: `stub` on a store whose rows are all decodable; then the source changes (one traced function becomes an
+    int, one a class) and the module is reloaded IN PLACE; `stub` / `stub -v` / `apply` again: the rows of the names that are
+    no longer functions are skipped and counted exactly as in a process that never saw the old source."""
+    import importlib
+
+    res = Result()
+    pkgdir = ctx.tmp / "c10_reload"
+    if not pkgdir.exists():
+        shutil.copytree(SRC, pkgdir)
+    sys.path.insert(0, str(pkgdir))
+    try:
+        for m in [m for m in sys.modules if m == "stale_fx" or m.startswith("stale_fx.")]:
+            del sys.modules[m]
+        import mcfg
+        from monkeytype.typing import NoOpRewriter
+
+        db = str(pkgdir / "db_reload.sqlite3")
+        mcfg.reset(db=db, rewriter=NoOpRewriter())
+        rows = [VALID[0], VALID[1], row(M, "good1", {"a": STR}, STR)]
+        populate(db, rows)
+        src_file = pkgdir / "stale_fx" / "mod.py"
+        orig = src_file.read_text()
+        rc0, out0, err0 = run_cli(["stub", M])
+        changed = orig.replace("def good1(a):\n    return a\n", "good1 = 3\n").replace("def good2(a, b=None):\n    return b\n", "class good2:\n    def __init__(self, a=None, b=None):\n        pass\n")
+        if changed == orig or rc0 != 0 or "good1" not in out0:
+            raise AssertionError("reload stage fixture out of date")
+        src_file.write_text(changed)
+        importlib.reload(sys.modules[M])
+        for name, argv in (("stub", ["stub", M]), ("stub-v", ["-v", "stub", M]), ("apply", ["apply", M])):
+            res.states += 1
+            res.transitions += 1
+            res.evaluations += 1
+            res.validated += 1
+            rc, out, err = run_cli(argv)
+            case = {"valid_mask": -1, "kinds": ["function-became-non-function-and-module-reloaded"], "cmd": name, "reload": True}
+            n_bad = count_failures(err, "-v" in argv)
+            if rc != 0 and "No traces found" not in err:
+                res.violate(Violation(ID, "fatal", "source-changed-and-reloaded", case, f"`{' '.join(argv)}` -> {rc}; stderr {err[-300:]}"))
+            elif "good1" in out or "good2" in out.replace("good2:", "") and "def good2" in out:
+                res.violate(Violation(ID, "output", "source-changed-and-reloaded", case, f"`{' '.join(argv)}` after good1 became an int and good2 a class (module reloaded in place) still stubs them:\n{out[:400]}"))
+            elif n_bad != 3:
+                res.violate(Violation(ID, "report", "count:source-changed-and-reloaded", case, f"`{' '.join(argv)}` reported {n_bad} skipped traces, 3 rows are undecodable now; stderr {err[-300:]}"))
+            src_file.write_text(changed)
+        src_file.write_text(orig)
+        res.oblige("saw:source-changed-and-reloaded", True)
+    finally:
+        for m in [m for m in sys.modules if m == "stale_fx" or m.startswith("stale_fx.")]:
+            del sys.modules[m]
+        sys.path.remove(str(pkgdir))
+    return res
+
+
 def run(ctx: Ctx) -> Result:
     cs = cases(ctx.tier)
     nshards = ctx.workers * 2
@@ -254,6 +307,8 @@ def run(ctx: Ctx) -> Result:
         return res
 
     res = run_shards(ctx, shard, list(range(nshards)))
+    res.merge(reload_stage(ctx))
+    res.obligations.setdefault("saw:source-changed-and-reloaded", False)
     res.obligations.setdefault("saw:mixed-good-and-stale", False)
     res.obligations.setdefault("saw:only-stale", False)
     res.bounds.update({"stale_kinds": len(KINDS), "max_stale_per_store": 2 if ctx.quick else 3, "valid_rows": len(VALID), "stores": len(cs)})
@@ -261,6 +316,8 @@ def run(ctx: Ctx) -> Result:
 
 
 def replay(case: Dict[str, Any], ctx: Ctx) -> List[Violation]:
+    if case.get("reload"):
+        return reload_stage(ctx).violations
     res = Result()
     pkgdir = ctx.tmp / "c10_replay"
     if not pkgdir.exists():
